@@ -1,8 +1,8 @@
 ----------------------------- MODULE Gen_Present -----------------------------
 (* Hostile zone text for C07: every string of length <= N over Alphabet is one *)
 (* TLC state, exported with the lexical classification Present.tla gives it.   *)
-(* Strings grow one character per step; a shard owns the strings that start    *)
-(* with one of its first characters (NShards = 1: everything).                 *)
+(* Strings grow one character per step (so TLC's workers share the universe);  *)
+(* shards split it by the first two characters (NShards = 1: everything).      *)
 EXTENDS Present, GenBase
 
 CONSTANTS Alphabet, N, Shard, NShards
@@ -13,12 +13,15 @@ RECURSIVE SetAsSeq(_)
 SetAsSeq(S) == IF S = {} THEN <<>> ELSE LET x == CHOOSE y \in S : TRUE IN <<x>> \o SetAsSeq(S \ {x})
 
 AlphaSeq == SetAsSeq(Alphabet)
-Mine(c) == (CHOOSE i \in 1..Len(AlphaSeq) : AlphaSeq[i] = c) % NShards = Shard
+IndexOf(c) == CHOOSE i \in 1..Len(AlphaSeq) : AlphaSeq[i] = c
+\* a shard owns the strings whose first two characters hash to it; the strings shorter than 2 belong to shard 0
+ShardOf(t) == ((IndexOf(t[1]) - 1) * Len(AlphaSeq) + (IndexOf(t[2]) - 1)) % NShards
 
 Init == s = <<>>
 Next == /\ Len(s) < N
-        /\ \E c \in Alphabet : (Len(s) > 0 \/ Mine(c)) /\ s' = Append(s, c)
+        /\ \E c \in Alphabet : s' = Append(s, c) /\ (Len(s') # 2 \/ ShardOf(s') = Shard)
 
-Out == (s = <<>> /\ Shard > 0) \/
-       LET L == Lex(s) IN Emit([kind |-> "text", text |-> s, ill |-> L.ill, odd |-> L.odd, amb |-> L.amb, ntok |-> Len(Items(L.toks))])
+Out == IF Len(s) < 2 /\ Shard # 0 THEN TRUE
+       ELSE LET L == Lex(s) IN
+            Emit([kind |-> "text", text |-> s, ill |-> L.ill, odd |-> L.odd, amb |-> L.amb, ntok |-> Len(Items(L.toks))])
 =============================================================================
